@@ -403,6 +403,12 @@ func (c *cache) remoteSync(ctx context.Context, ptr *node.Pointer, fetcher readS
 	if err != nil {
 		return err
 	}
+	// The tree is built from proofs of the version it asks for (a leaf comes embedded in its
+	// internal node). A proof of another version verifies as well, but leaves such leaves as
+	// bare hashes, which the tree would later take for absent keys.
+	if proof.V != syncProofsVersion {
+		return fmt.Errorf("mkvs: got proof of unexpected version (%d)", proof.V)
+	}
 
 	// The proof can be for one of two hashes: i) it is either for ptr.Hash in case
 	// all the nodes are only contained in the subtree below ptr, or ii) it is for
